@@ -1,11 +1,48 @@
 (* Proofs for C14 (model/XmlFetch.v against spec/ManifestSpec.v). *)
 From Cam Require Import XmlFetch ManifestSpec P_C06 P_C07.
+From Cam Require U3VTables.
 
 Lemma lossy_ascii bs : Forall (fun b => 0 <= b < 128) bs -> lossy bs = bs.
 Proof.
   induction 1 as [|b r Hb Hr IH]; cbn [lossy]; auto.
   destruct (Z.ltb_spec b 128); [|lia]. now rewrite IH.
 Qed.
+
+(* from_utf8_lossy is the identity on well-formed UTF-8 (utf8_valid of spec/U3VTables.v: P_C13 proves it
+   accepts exactly the encodings of Unicode scalar values) *)
+Lemma lossy_valid_n : forall n bs, (length bs <= n)%nat -> U3VTables.utf8_valid bs = true -> lossy bs = bs.
+Proof.
+  induction n as [|n IH]; intros bs Hl Hv.
+  - destruct bs; [reflexivity|cbn in Hl; lia].
+  - destruct bs as [|b0 r]; [reflexivity|]. cbn [length] in Hl.
+    cbn [U3VTables.utf8_valid] in Hv. cbn [lossy].
+    unfold U3VTables.in_rng, U3VTables.cont, U3VTables.in_rng in Hv. unfold in_r, is_cont, ok3, ok4, in_r.
+    destruct (Z.ltb_spec b0 128).
+    { destruct ((0 <=? b0) && (b0 <=? 127)) eqn:E0.
+      - rewrite IH; [reflexivity|lia|exact Hv].
+      - exfalso. repeat match type of Hv with (if ?c then _ else _) = true => destruct c eqn:?; try discriminate end; lia. }
+    assert (E0 : (0 <=? b0) && (b0 <=? 127) = false) by lia. rewrite E0 in Hv.
+    destruct ((194 <=? b0) && (b0 <=? 223)) eqn:E2.
+    { destruct r as [|b1 r1]; [discriminate|]. apply andb_prop in Hv as [Hc Hv]. rewrite Hc.
+      rewrite IH; [reflexivity|cbn in *; lia|exact Hv]. }
+    destruct ((224 <=? b0) && (b0 <=? 239)) eqn:E3.
+    { destruct r as [|b1 [|b2 r2]]; try discriminate.
+      apply andb_prop in Hv as [Hv Hr]. apply andb_prop in Hv as [H1 H2]. rewrite H2.
+      assert (Hok : (b0 =? 224) && ((160 <=? b1) && (b1 <=? 191)) || (225 <=? b0) && (b0 <=? 236) && ((128 <=? b1) && (b1 <=? 191))
+            || (b0 =? 237) && ((128 <=? b1) && (b1 <=? 159)) || (238 <=? b0) && (b0 <=? 239) && ((128 <=? b1) && (b1 <=? 191)) = true).
+      { destruct (Z.eqb_spec b0 224); [rewrite H1; reflexivity|]. destruct (Z.eqb_spec b0 237); [rewrite H1; cbn; lia|]. rewrite H1. lia. }
+      rewrite Hok. rewrite IH; [reflexivity|cbn in *; lia|exact Hr]. }
+    destruct ((240 <=? b0) && (b0 <=? 244)) eqn:E4; [|discriminate].
+    destruct r as [|b1 [|b2 [|b3 r3]]]; try discriminate.
+    apply andb_prop in Hv as [Hv Hr]. apply andb_prop in Hv as [Hv H3]. apply andb_prop in Hv as [H1 H2]. rewrite H2, H3.
+    assert (Hok : (b0 =? 240) && ((144 <=? b1) && (b1 <=? 191)) || (241 <=? b0) && (b0 <=? 243) && ((128 <=? b1) && (b1 <=? 191))
+            || (b0 =? 244) && ((128 <=? b1) && (b1 <=? 143)) = true).
+    { destruct (Z.eqb_spec b0 240); [rewrite H1; reflexivity|]. destruct (Z.eqb_spec b0 244); [rewrite H1; cbn; lia|]. rewrite H1. lia. }
+    rewrite Hok. rewrite IH; [reflexivity|cbn in *; lia|exact Hr].
+Qed.
+
+Lemma lossy_valid bs : U3VTables.utf8_valid bs = true -> lossy bs = bs.
+Proof. apply (lossy_valid_n (length bs)). lia. Qed.
 
 Lemma pair_inj {A B} (a a' : A) (b b' : B) : (a, b) = (a', b') -> a = a' /\ b = b'.
 Proof. intros H; split; congruence. Qed.
